@@ -47,10 +47,12 @@ class CSemantics:
         if self.context.sizeof(self.int_type) == self.context.sizeof(
             self.intptr_type
         ):
-            self.size_t_type = self.int_type
+            self.size_t_type = self.get_type(["unsigned", "int"])
+            self.ptrdiff_t_type = self.int_type
         else:
             # TODO: this might be 4 bytes on LP64 mode:
-            self.size_t_type = self.long_type
+            self.size_t_type = self.get_type(["unsigned", "long"])
+            self.ptrdiff_t_type = self.long_type
 
         # Working variables:
         self.compounds = []
@@ -864,7 +866,7 @@ class CSemantics:
                             location,
                         )
 
-                    result_typ = self.size_t_type
+                    result_typ = self.ptrdiff_t_type
 
                 else:
                     # pointer - integer
